@@ -2028,6 +2028,12 @@ fn c01_fs_run(case: &mut Case, rng: &mut Rng) {
     let hosts = case.cfg.hosts;
     let names = ["alpha", "b", "c7", "delta", "e", "file-10", "file-2", "g", "zz", "m", "n0", "x"];
     let rounds = rng.range(4, 14);
+    if rng.chance(1, 2) {
+        for h in 0..hosts {
+            case.ctl(&format!("q h{h} fs_direct_hold"));
+        }
+        case.ctl("step");
+    }
     for _ in 0..rounds {
         for h in 0..hosts {
             if !case.running[h] {
